@@ -21,7 +21,7 @@ NOT decided: float equality after restore, rustworkx index reuse, pickle/gzip be
 import ast
 
 from ..astutil import call_name, calls, dotted, kwarg, last_name, parents, u
-from ..formula import extract, same, spec
+from ..formula import extract, same, same_events, spec
 from ..model import AnalysisError
 from ..paths import enumerate_paths, guards_of
 from ..termflow import ADict, AList, show, vkey
@@ -182,16 +182,24 @@ def rule_D1(ctx):
         for x in ast.walk(e):
             if isinstance(x, ast.Subscript) and isinstance(x.value, ast.Name) and x.value.id == P and _const_str(x.slice) == k:
                 return True
+            if isinstance(x, ast.Call) and isinstance(x.func, ast.Attribute) and x.func.attr == "get" and isinstance(x.func.value, ast.Name) and x.func.value.id == P and x.args and _const_str(x.args[0]) == k:
+                return True
             if isinstance(x, ast.Name) and x.id in derived:
                 return True
         return False
 
+    for k in sorted(set(reads) - set(written)):
+        ctx.check(all(tol for n, tol in reads[k]), "D1", "key %r (not written) feeds a slot only as a guarded option" % k, r.where(reads[k][0][0]),
+                  "from_dict fills a slot from %r, which to_dict never writes" % k, construct=r.qualname, stmt="restore from unwritten key %s" % k)
     for k, vexpr in sorted(written.items()):
         src = sorted({a.attr for a in ast.walk(vexpr) if isinstance(a, ast.Attribute) and isinstance(a.value, ast.Name) and a.value.id == selfname and a.attr in slots})
         if len(src) != 1:
             raise AnalysisError("to_dict value for key %r reads %d slots (%s); expected one" % (k, len(src), src))
         slot = src[0]
         if k not in reads:
+            ctx.fail("D1", "key %r (taken from self.%s) is restored into new.%s" % (k, slot, slot), r.where(),
+                     "to_dict fills %r from self.%s, but from_dict never reads that key: new.%s is not restored from the stored form" % (k, slot, slot),
+                     construct=r.qualname, stmt="restore %s" % slot)
             continue
         derived = set()
         for s in ast.walk(r.node):
@@ -297,7 +305,7 @@ def rule_D2(ctx):
 # --------------------------------------------------------------------------- D3
 def rule_D3(ctx):
     prog = ctx.prog
-    ctx.rule("D3", "from_dict rebuilds one payload per clone from the entry's prior and data at the clone's graph index, removes index holes, copies maps and per-clone lists (as to_dict does), and refreshes the recursion last", 11)
+    ctx.rule("D3", "from_dict rebuilds one payload per clone from the entry's prior and data at the clone's graph index, removes index holes, copies maps and per-clone lists (as to_dict does), and refreshes the recursion last", 12)
     r = prog.fn("Tree.from_dict")
     w = prog.fn("Tree.to_dict")
     P = r.params[1]
@@ -310,6 +318,8 @@ def rule_D3(ctx):
         """Dictionary key an expression denotes: tree_dict['k'] or a local bound once to it."""
         if isinstance(e, ast.Subscript) and isinstance(e.value, ast.Name) and e.value.id == P:
             return _const_str(e.slice)
+        if isinstance(e, ast.Call) and isinstance(e.func, ast.Attribute) and e.func.attr == "get" and isinstance(e.func.value, ast.Name) and e.func.value.id == P and e.args:
+            return _const_str(e.args[0])
         if isinstance(e, ast.Name):
             d = _single_def(fn, e.id)
             if d is not None and d is not e:
@@ -422,18 +432,24 @@ def rule_D3(ctx):
               construct=r.qualname, stmt="copy _data")
     written = _written_dict(w)
     selfname = w.params[0]
-    for key in ("node_idx", "node_idx_rev"):
-        if key not in written:
-            raise AnalysisError("to_dict no longer writes %r" % key)
-        inner = _copied(written[key])
-        ctx.check(isinstance(inner, ast.Attribute) and isinstance(inner.value, ast.Name) and inner.value.id == selfname, "D3", "to_dict copies the %s map" % key, w.where(written[key]),
-                  "to_dict stores %s itself: the dictionary form (kept by every particle) changes whenever the live tree is edited or relabelled" % u(written[key]),
-                  construct=w.qualname, stmt="copy %s" % key)
-    if "node_data" not in written:
-        raise AnalysisError("to_dict no longer writes 'node_data'")
-    inner = _per_value_copy(written["node_data"])
-    ctx.check(isinstance(inner, ast.Attribute) and inner.attr == "_data", "D3", "to_dict copies every per-clone data list", w.where(written["node_data"]),
-              "to_dict stores %s: the per-clone lists are shared with the live tree, so a later move changes the stored form" % u(written["node_data"])[:90],
+    def written_from(slot):
+        return [(k, v) for k, v in sorted(written.items()) if any(isinstance(a, ast.Attribute) and a.attr == slot and isinstance(a.value, ast.Name) and a.value.id == selfname for a in ast.walk(v))]
+
+    for slot in ("_node_indices", "_node_indices_rev"):
+        ents = written_from(slot)
+        if len(ents) != 1:
+            raise AnalysisError("to_dict stores self.%s under %d keys" % (slot, len(ents)))
+        key, v = ents[0]
+        inner = _copied(v)
+        ctx.check(isinstance(inner, ast.Attribute) and inner.attr == slot, "D3", "to_dict copies the %s map" % slot, w.where(v),
+                  "to_dict stores %s itself under %r: the dictionary form (kept by every particle) changes whenever the live tree is edited or relabelled" % (u(v), key),
+                  construct=w.qualname, stmt="copy %s" % slot)
+    ents = written_from("_data")
+    if len(ents) != 1:
+        raise AnalysisError("to_dict stores self._data under %d keys" % len(ents))
+    inner = _per_value_copy(ents[0][1])
+    ctx.check(isinstance(inner, ast.Attribute) and inner.attr == "_data", "D3", "to_dict copies every per-clone data list", w.where(ents[0][1]),
+              "to_dict stores %s: the per-clone lists are shared with the live tree, so a later move changes the stored form" % u(ents[0][1])[:90],
               construct=w.qualname, stmt="copy node_data")
 
     # ---- refresh last
@@ -492,6 +508,13 @@ def _entry_of(ex, fi):
         if not isinstance(kv, str):
             raise AnalysisError("%s: non-literal key in the trace entry" % fi.qualname)
         items[kv] = val
+    for e in ex.events:  # entry["k"] = v on the dictionary before it is appended
+        if e.name == "store_sub" and len(e.args) == 3 and (e.args[0] is d or (isinstance(e.args[0], ADict) and vkey(e.args[0]) == vkey(d))):
+            if e.node is not None and evs[0].node is not None and getattr(e.node, "lineno", 0) > getattr(evs[0].node, "lineno", 0):
+                raise AnalysisError("%s: the entry is modified after it was appended (shape not modelled)" % fi.qualname)
+            if not isinstance(e.args[1], str):
+                raise AnalysisError("%s: non-literal key stored into the trace entry" % fi.qualname)
+            items[e.args[1]] = e.args[2]
     return evs[0], items
 
 
@@ -512,6 +535,8 @@ def rule_R1(ctx):
     for k in CHECKED_ENTRY_KEYS:
         if k in got:
             same(ctx, "R1", "entry[%r]" % k, f, got[k], want[k], "entry[%r]" % k, node=ev.node)
+        else:
+            ctx.fail("R1", "entry[%r]" % k, f.where(ev.node), "the entry has no %r" % k, construct=f.qualname, stmt="entry[%r]" % k)
     ctx.analysed(f)
     return ex, got
 
@@ -570,7 +595,7 @@ def _mutates_param(prog, callee, pname):
 
 def rule_R2(ctx, entry_terms):
     prog = ctx.prog
-    ctx.rule("R2", "setup_trace records one entry from the post-burn-in tree before the loop; in the loop the append is guarded by i % thin == 0 (thin = the CLI value), records the loop counter, follows every state change of its iteration, is reached before any early exit; the trace is only appended to", 20)
+    ctx.rule("R2", "setup_trace records one entry from the post-burn-in tree before the loop; in the loop the append is guarded by i % thin == 0 (thin = the CLI value), records the loop counter, follows every state change of its iteration, is reached before any early exit; the trace is only appended to", 18)
     f = prog.fn("run._run_main_sampler")
     st_fi = prog.fn("run.setup_trace")
     app = prog.fn("run.append_to_trace")
@@ -579,25 +604,20 @@ def rule_R2(ctx, entry_terms):
     burn = prog.fn("run._run_burnin")
 
     # ---- (1) setup_trace: exactly one entry, taken from the tree / tree_dist it is handed
-    ex = extract(prog, st_fi)
+    # (append_to_trace is kept opaque here; what one call appends is rule R1)
+    ex = extract(prog, st_fi, no_inline=[app.name])
     sp = spec(prog, """
         def s(timer, tree, tree_dist):
-            return [{"alpha": tree_dist.prior.alpha, "log_p_one": tree_dist.log_p_one(tree), "tree": tree.to_dict()}]
-        """, st_fi)
-    res = ex.result
-    n_items = len(res.items) if isinstance(res, AList) and not res.doms else None
-    ctx.check(n_items == 1, "R2", "setup_trace returns a list holding exactly one entry", st_fi.where(),
-              "setup_trace returns %s: the trace must start with exactly one entry, the state after burn-in" % show(res)[:120], construct=st_fi.qualname, stmt="initial entries")
-    if n_items == 1 and isinstance(res.items[0], ADict):
-        got = {kv: val for kk, (kv, val) in res.items[0].items.items()}
-        want = {kv: val for kk, (kv, val) in sp.result.items[0].items.items()}
-        for k in ("alpha", "log_p_one", "tree"):
-            if k not in got:
-                ctx.fail("R2", "setup_trace entry[%r]" % k, st_fi.where(), "the initial entry has no %r" % k, construct=st_fi.qualname, stmt="initial entry[%r]" % k)
-            else:
-                same(ctx, "R2", "setup_trace entry[%r] comes from the tree / tree_dist handed in" % k, st_fi, got[k], want[k], "initial entry[%r]" % k)
-    elif n_items == 1:
-        raise AnalysisError("setup_trace: the initial entry is not a dictionary the extractor can read")
+            trace = []
+            append_to_trace(0, timer, trace, tree, tree_dist)
+            return trace
+        """, st_fi, no_inline=[app.name])
+    same_events(ctx, "R2", "setup_trace makes exactly one append_to_trace(…, <new list>, tree, tree_dist) call", st_fi, ex.calls(app.name), sp.calls(app.name),
+                "append_to_trace calls of setup_trace", skip_args=(0, 1))
+    same(ctx, "R2", "setup_trace returns that list, which starts empty", st_fi, ex.result, sp.result, "returned trace")
+    others = [e for e in ex.events if e.name in (".append", ".extend", ".insert")]
+    if others:
+        raise AnalysisError("setup_trace grows the trace by %s besides append_to_trace (shape not modelled)" % others[0].name)
 
     # ---- (2) the call in _run_main_sampler: before the loop, on the tree parameter as received
     body = f.node.body
@@ -1070,4 +1090,109 @@ def run(ctx):
     rule_R3(ctx, entry[1].keys(), chain_dict)
 
 
-SELFTEST = []
+# --------------------------------------------------------------------------- self-test catalogue
+_T = "phyclone/tree/tree.py"
+_TN = "phyclone/tree/tree_node.py"
+_TH = "phyclone/smc/swarm/tree_holder.py"
+_PA = "phyclone/smc/swarm/particle.py"
+_RUN = "phyclone/run.py"
+_PT = "phyclone/process_trace/process_trace.py"
+_APPEND_BLOCK = "            if i % thin == 0:\n                append_to_trace(i, timer, trace, tree, tree_dist)\n\n            if timer.elapsed >= max_time:\n                break\n"
+_ENTRY = "    trace.append(\n        {\n            \"iter\": i,\n            \"time\": timer.elapsed,\n            \"alpha\": tree_dist.prior.alpha,\n            \"log_p_one\": tree_dist.log_p_one(tree),\n            \"tree\": tree.to_dict(),\n        }\n    )\n"
+SELFTEST = [
+    # ---- D1
+    {"name": "D1-key-renamed-in-to_dict-only", "kind": "break", "rule": "D1", "file": _T, "old": "            \"node_idx_rev\": self._node_indices_rev.copy(),\n", "new": "            \"node_index_rev\": self._node_indices_rev.copy(),\n"},
+    {"name": "D1-maps-cross-wired-on-restore", "kind": "break", "rule": "D1", "file": _T,
+     "old": "        new._node_indices_rev = tree_dict[\"node_idx_rev\"].copy()\n        new._node_indices = tree_dict[\"node_idx\"].copy()\n",
+     "new": "        new._node_indices_rev = tree_dict[\"node_idx\"].copy()\n        new._node_indices = tree_dict[\"node_idx_rev\"].copy()\n"},
+    {"name": "D1-last-added-not-restored", "kind": "break", "rule": "D1", "file": _T, "old": "        new._last_node_added_to = tree_dict[\"node_last_added_to\"]\n", "new": "        new._last_node_added_to = None\n"},
+    {"name": "D1-optional-key-read-unguarded", "kind": "break", "rule": "D1", "edits": [
+        {"file": _T, "old": "            \"log_prior\": self._log_prior,\n", "new": ""},
+        {"file": _T, "old": "        if \"log_prior\" in tree_dict:\n            log_prior = tree_dict[\"log_prior\"]\n        else:\n            log_prior = -np.log(grid_size[1])\n", "new": "        log_prior = tree_dict[\"log_prior\"]\n"}]},
+    # ---- D2
+    {"name": "D2-new-slot-not-assigned-in-copy", "kind": "break", "rule": "D2", "edits": [
+        {"file": _T, "old": "        \"_last_node_added_to\",\n    )\n", "new": "        \"_last_node_added_to\",\n        \"_num_edits\",\n    )\n"},
+        {"file": _T, "old": "        self._last_node_added_to = None\n\n        self._add_node(self._ROOT_NODE_NAME)\n", "new": "        self._last_node_added_to = None\n\n        self._num_edits = 0\n\n        self._add_node(self._ROOT_NODE_NAME)\n"},
+        {"file": _T, "old": "        new._last_node_added_to = tree_dict[\"node_last_added_to\"]\n", "new": "        new._last_node_added_to = tree_dict[\"node_last_added_to\"]\n        new._num_edits = 0\n"}]},
+    {"name": "D2-holder-slot-assigned-on-one-arm-only", "kind": "break", "rule": "D2", "file": _TH,
+     "old": "            self.num_children_on_node_that_matters = tree.get_number_of_children(self.node_last_added_to)\n        else:\n            self.num_children_on_node_that_matters = 0\n",
+     "new": "            self.num_children_on_node_that_matters = tree.get_number_of_children(self.node_last_added_to)\n"},
+    {"name": "D2-particle-setter-skips-tree_nodes", "kind": "break", "rule": "D2", "file": _PA,
+     "old": "        self.tree_nodes = tree.tree_nodes.copy()\n", "new": "        if tree.tree_nodes:\n            self.tree_nodes = tree.tree_nodes.copy()\n"},
+    {"name": "D2-node-copy-drops-data_points", "kind": "break", "rule": "D2", "file": _TN, "old": "        new.data_points = self.data_points.copy()\n        return new\n", "new": "        return new\n"},
+    # ---- D3
+    {"name": "D3-from_dict-without-update", "kind": "break", "rule": "D3", "file": _T, "old": "        new.update()\n        return new\n", "new": "        return new\n"},
+    {"name": "D3-maps-not-copied-in-from_dict", "kind": "break", "rule": "D3", "file": _T, "old": "        new._node_indices = tree_dict[\"node_idx\"].copy()\n", "new": "        new._node_indices = tree_dict[\"node_idx\"]\n"},
+    {"name": "D3-data-lists-shared-on-restore", "kind": "break", "rule": "D3", "file": _T,
+     "old": "        new._data.update({k: v.copy() for k, v in tree_dict[\"node_data\"].items()})\n", "new": "        new._data.update(tree_dict[\"node_data\"])\n"},
+    {"name": "D3-to_dict-shares-data-lists", "kind": "break", "rule": "D3", "file": _T, "old": "            \"node_data\": {k: v.copy() for k, v in self._data.items()},\n", "new": "            \"node_data\": dict(self._data),\n"},
+    {"name": "D3-holes-tested-against-name-map", "kind": "break", "rule": "D3", "file": _T, "old": "if idx not in tree_dict[\"node_idx_rev\"]]", "new": "if idx not in tree_dict[\"node_idx\"]]"},
+    {"name": "D3-payload-at-reverse-map-index", "kind": "break", "rule": "D3", "file": _T, "old": "            node_idxs = tree_dict[\"node_idx\"]\n", "new": "            node_idxs = tree_dict[\"node_idx_rev\"]\n"},
+    {"name": "D3-payload-default-prior", "kind": "break", "rule": "D3", "file": _T, "old": "                node_obj = TreeNode(grid_size, log_prior, node)\n", "new": "                node_obj = TreeNode(grid_size, -np.log(grid_size[1]), node)\n"},
+    {"name": "D3-payload-filled-one-by-one-from-slice", "kind": "break", "rule": "D3", "file": _T, "old": "                node_obj.add_data_point_list(data_list)\n", "new": "                node_obj.add_data_point_list(data_list[1:])\n"},
+    {"name": "D3-graph-edit-after-update", "kind": "break", "rule": "D3", "file": _T,
+     "old": "            if len(node_index_holes) > 0:\n                new_graph.remove_nodes_from(node_index_holes)\n\n        new.update()\n        return new\n",
+     "new": "        new.update()\n        if len(tree_dict[\"graph\"]) > 0 and len(node_index_holes) > 0:\n            new_graph.remove_nodes_from(node_index_holes)\n        return new\n"},
+    # ---- R1
+    {"name": "R1-iter-is-trace-length", "kind": "break", "rule": "R1", "file": _RUN, "old": "            \"iter\": i,\n", "new": "            \"iter\": len(trace),\n"},
+    {"name": "R1-alpha-captured-before-update", "kind": "break", "rule": "R1", "edits": [
+        {"file": _RUN, "old": "def append_to_trace(i, timer, trace, tree, tree_dist):\n", "new": "def append_to_trace(i, timer, trace, tree, tree_dist, alpha=None):\n"},
+        {"file": _RUN, "old": "            \"alpha\": tree_dist.prior.alpha,\n", "new": "            \"alpha\": tree_dist.prior.alpha if alpha is None else alpha,\n"},
+        {"file": _RUN, "old": "            tree.relabel_nodes()\n\n            if concentration_update:\n                update_concentration_value(conc_sampler, tree, tree_dist)\n\n            if i % thin == 0:\n                append_to_trace(i, timer, trace, tree, tree_dist)\n",
+         "new": "            tree.relabel_nodes()\n\n            alpha_now = tree_dist.prior.alpha\n\n            if concentration_update:\n                update_concentration_value(conc_sampler, tree, tree_dist)\n\n            if i % thin == 0:\n                append_to_trace(i, timer, trace, tree, tree_dist, alpha_now)\n"}]},
+    {"name": "R1-log_p-instead-of-log_p_one", "kind": "break", "rule": "R1", "file": _RUN, "old": "            \"log_p_one\": tree_dist.log_p_one(tree),\n", "new": "            \"log_p_one\": tree_dist.log_p(tree),\n"},
+    {"name": "R1-live-tree-stored", "kind": "break", "rule": "R1", "file": _RUN, "old": "            \"tree\": tree.to_dict(),\n", "new": "            \"tree\": tree,\n"},
+    # ---- R2
+    {"name": "R2-thin-remainder-one", "kind": "break", "rule": "R2", "file": _RUN, "old": "            if i % thin == 0:\n", "new": "            if i % thin == 1:\n"},
+    {"name": "R2-guard-uses-print_freq", "kind": "break", "rule": "R2", "file": _RUN, "old": "            if i % thin == 0:\n", "new": "            if i % print_freq == 0:\n"},
+    {"name": "R2-append-before-the-moves", "kind": "break", "rule": "R2", "edits": [
+        {"file": _RUN, "old": _APPEND_BLOCK, "new": "            if timer.elapsed >= max_time:\n                break\n"},
+        {"file": _RUN, "old": "            clear_proposal_dist_caches()\n\n            if rng.random() < subtree_update_prob:\n",
+         "new": "            clear_proposal_dist_caches()\n\n            if i % thin == 0:\n                append_to_trace(i, timer, trace, tree, tree_dist)\n\n            if rng.random() < subtree_update_prob:\n"}]},
+    {"name": "R2-append-before-concentration-update", "kind": "break", "rule": "R2", "edits": [
+        {"file": _RUN, "old": _APPEND_BLOCK, "new": "            if timer.elapsed >= max_time:\n                break\n"},
+        {"file": _RUN, "old": "            tree.relabel_nodes()\n\n            if concentration_update:\n                update_concentration_value(conc_sampler, tree, tree_dist)\n",
+         "new": "            tree.relabel_nodes()\n\n            if i % thin == 0:\n                append_to_trace(i, timer, trace, tree, tree_dist)\n\n            if concentration_update:\n                update_concentration_value(conc_sampler, tree, tree_dist)\n"}]},
+    {"name": "R2-timer-break-before-append", "kind": "break", "rule": "R2", "file": _RUN, "old": _APPEND_BLOCK,
+     "new": "            if timer.elapsed >= max_time:\n                break\n\n            if i % thin == 0:\n                append_to_trace(i, timer, trace, tree, tree_dist)\n"},
+    {"name": "R2-thin-and-print_freq-swapped-at-call", "kind": "break", "rule": "R2", "file": _RUN,
+     "old": "            outlier_prob,\n            print_freq,\n            proposal,\n            resample_threshold,\n            rng_main,\n            samples,\n            thin,\n            0,\n",
+     "new": "            outlier_prob,\n            thin,\n            proposal,\n            resample_threshold,\n            rng_main,\n            samples,\n            print_freq,\n            0,\n"},
+    {"name": "R2-setup_trace-records-nothing", "kind": "break", "rule": "R2", "file": _RUN, "old": "    trace = []\n    append_to_trace(0, timer, trace, tree, tree_dist)\n    return trace\n", "new": "    trace = []\n    return trace\n"},
+    {"name": "R2-burnin-entry-dropped-from-result", "kind": "break", "rule": "R2", "file": _RUN, "old": "\"trace\": trace, \"chain_num\": chain_num}", "new": "\"trace\": trace[1:], \"chain_num\": chain_num}"},
+    {"name": "R2-burnin-result-discarded", "kind": "break", "rule": "R2", "file": _RUN, "old": "    tree = _run_burnin(\n", "new": "    _ = _run_burnin(\n"},
+    {"name": "R2-loop-starts-at-one", "kind": "break", "rule": "R2", "file": _RUN, "old": "    for i in range(num_iters):\n        with timer:\n            if i % print_freq == 0:\n                print_stats(i, tree, tree_dist, chain_num)\n\n            clear_proposal_dist_caches()\n\n            if rng.random()",
+     "new": "    for i in range(1, num_iters):\n        with timer:\n            if i % print_freq == 0:\n                print_stats(i, tree, tree_dist, chain_num)\n\n            clear_proposal_dist_caches()\n\n            if rng.random()"},
+    {"name": "R2-append-records-stale-tree", "kind": "break", "rule": "R2", "edits": [
+        {"file": _RUN, "old": "    trace = setup_trace(timer, tree, tree_dist)\n", "new": "    trace = setup_trace(timer, tree, tree_dist)\n    first_tree = tree\n"},
+        {"file": _RUN, "old": "                append_to_trace(i, timer, trace, tree, tree_dist)\n\n            if timer.elapsed >= max_time:", "new": "                append_to_trace(i, timer, trace, first_tree, tree_dist)\n\n            if timer.elapsed >= max_time:"}]},
+    # ---- R3
+    {"name": "R3-entry-key-renamed-on-writer-side", "kind": "break", "rule": ["R3", "R1"], "file": _RUN, "old": "            \"log_p_one\": tree_dist.log_p_one(tree),\n", "new": "            \"log_p\": tree_dist.log_p_one(tree),\n"},
+    {"name": "R3-chain-key-renamed-on-writer-side", "kind": "break", "rule": "R3", "file": _RUN, "old": "results = {\"data\": data, \"samples\": samples,", "new": "results = {\"data\": data, \"sample_ids\": samples,"},
+    {"name": "R3-optional-clusters-read-strictly", "kind": "break", "rule": "R3", "file": _PT, "old": "    clusters = results[0].get(\"clusters\", None)\n\n    table = get_clone_table(data, results[0][\"samples\"], tree, clusters=clusters)\n\n    _create_results_output_files(out_table_file, out_tree_file, table, tree)\n\n\ndef create_topology_dict_from_trace",
+     "new": "    clusters = results[0][\"clusters\"]\n\n    table = get_clone_table(data, results[0][\"samples\"], tree, clusters=clusters)\n\n    _create_results_output_files(out_table_file, out_tree_file, table, tree)\n\n\ndef create_topology_dict_from_trace"},
+    {"name": "R3-reader-without-gzip", "kind": "break", "rule": "R3", "file": _PT, "old": "    with gzip.GzipFile(in_file, \"rb\") as fh:\n        results = pickle.load(fh)\n\n    data = results[0][\"data\"]\n\n    trees = []\n",
+     "new": "    with open(in_file, \"rb\") as fh:\n        results = pickle.load(fh)\n\n    data = results[0][\"data\"]\n\n    trees = []\n"},
+    # ---- benign
+    {"name": "benign-entry-built-with-dict-call", "kind": "benign", "file": _RUN, "old": _ENTRY,
+     "new": "    entry = dict(iter=i, time=timer.elapsed, alpha=tree_dist.prior.alpha)\n    entry[\"tree\"] = tree.to_dict()\n    entry[\"log_p_one\"] = tree_dist.log_p_one(tree)\n    trace.append(entry)\n"},
+    {"name": "benign-to_dict-built-with-dict-call", "kind": "benign", "file": _T,
+     "old": "        tree_dict = {\n            \"graph\": self._graph.edge_list(),\n            \"node_idx\": self._node_indices.copy(),\n            \"node_idx_rev\": self._node_indices_rev.copy(),\n            \"node_data\": {k: v.copy() for k, v in self._data.items()},\n            \"grid_size\": self.grid_size,\n            \"node_last_added_to\": self._last_node_added_to,\n            \"log_prior\": self._log_prior,\n        }\n        return tree_dict\n",
+     "new": "        out = dict(\n            graph=self._graph.edge_list(),\n            node_idx=dict(self._node_indices),\n            node_idx_rev=dict(self._node_indices_rev),\n            grid_size=self.grid_size,\n            log_prior=self._log_prior,\n        )\n        out[\"node_data\"] = {name: list(points) for name, points in self._data.items()}\n        out[\"node_last_added_to\"] = self._last_node_added_to\n        return out\n"},
+    {"name": "benign-from_dict-locals-renamed-and-get-default", "kind": "benign", "edits": [
+        {"file": _T, "old": "        if \"log_prior\" in tree_dict:\n            log_prior = tree_dict[\"log_prior\"]\n        else:\n            log_prior = -np.log(grid_size[1])\n", "new": "        log_prior = tree_dict.get(\"log_prior\", -np.log(grid_size[1]))\n"},
+        {"file": _T, "old": "            node_idxs = tree_dict[\"node_idx\"]\n", "new": "            index_of = tree_dict[\"node_idx\"]\n"},
+        {"file": _T, "old": "                node_idx = node_idxs[node]\n                new_graph[node_idx] = node_obj\n", "new": "                new_graph[index_of[node]] = node_obj\n"},
+        {"file": _T, "old": "        new._node_indices = tree_dict[\"node_idx\"].copy()\n", "new": "        new._node_indices = dict(tree_dict[\"node_idx\"])\n"}]},
+    {"name": "benign-init-helper-assigns-maps", "kind": "benign", "edits": [
+        {"file": _T, "old": "        self._node_indices = dict()\n\n        self._node_indices_rev = dict()\n\n        self._last_node_added_to = None\n\n        self._add_node(self._ROOT_NODE_NAME)\n",
+         "new": "        self._reset_maps()\n\n        self._last_node_added_to = None\n\n        self._add_node(self._ROOT_NODE_NAME)\n\n    def _reset_maps(self):\n        self._node_indices = dict()\n        self._node_indices_rev = dict()\n"}]},
+    {"name": "benign-guard-not-mod-and-range-zero", "kind": "benign", "edits": [
+        {"file": _RUN, "old": "            if i % thin == 0:\n", "new": "            if not i % thin:\n"},
+        {"file": _RUN, "old": "    for i in range(num_iters):\n        with timer:\n            if i % print_freq == 0:\n                print_stats(i, tree, tree_dist, chain_num)\n\n            clear_proposal_dist_caches()\n\n            if rng.random()",
+         "new": "    for i in range(0, num_iters):\n        with timer:\n            if i % print_freq == 0:\n                print_stats(i, tree, tree_dist, chain_num)\n\n            clear_proposal_dist_caches()\n\n            if rng.random()"}]},
+    {"name": "benign-print-and-negated-guard-arm", "kind": "benign", "file": _RUN, "old": "            if i % thin == 0:\n                append_to_trace(i, timer, trace, tree, tree_dist)\n\n            if timer.elapsed >= max_time:",
+     "new": "            if i % thin != 0:\n                pass\n            else:\n                print(\"recording\", i, len(trace))\n                append_to_trace(i, timer, trace, tree, tree_dist)\n\n            if timer.elapsed >= max_time:"},
+    {"name": "benign-setup_trace-locals-renamed", "kind": "benign", "file": _RUN, "old": "    trace = []\n    append_to_trace(0, timer, trace, tree, tree_dist)\n    return trace\n",
+     "new": "    entries = list()\n    start = 0\n    append_to_trace(start, timer, entries, tree, tree_dist)\n    return entries\n"},
+]
